@@ -1,3 +1,4 @@
+from ctypes import c_float
 from math import copysign, isnan
 from typing import cast
 
@@ -10,6 +11,7 @@ from xdsl.interpreter import (
     impl,
     register_impls,
 )
+from xdsl.ir import Attribute
 from xdsl.utils.comparisons import to_signed
 from xdsl.utils.exceptions import InterpretationError
 from xdsl.utils.hints import isa
@@ -23,6 +25,15 @@ def _int_bitwidth(
     if isa(typ, builtin.IndexType):
         return interpreter.index_bitwidth
     raise ValueError("unexpected integer type")
+
+
+def _round_to_type(value: float, typ: Attribute) -> float:
+    """
+    Python floats are binary64; round the result of an f32 operation to binary32.
+    """
+    if isinstance(typ, builtin.Float32Type):
+        return c_float(value).value
+    return value
 
 
 def _sign_extend(value: int, from_bitwidth: int) -> int:
@@ -97,15 +108,15 @@ class ArithFunctions(InterpreterFunctions):
 
     @impl(arith.SubfOp)
     def run_subf(self, interpreter: Interpreter, op: arith.SubfOp, args: PythonValues):
-        return (args[0] - args[1],)
+        return (_round_to_type(args[0] - args[1], op.result.type),)
 
     @impl(arith.AddfOp)
     def run_addf(self, interpreter: Interpreter, op: arith.AddfOp, args: PythonValues):
-        return (args[0] + args[1],)
+        return (_round_to_type(args[0] + args[1], op.result.type),)
 
     @impl(arith.MulfOp)
     def run_mulf(self, interpreter: Interpreter, op: arith.MulfOp, args: PythonValues):
-        return (args[0] * args[1],)
+        return (_round_to_type(args[0] * args[1], op.result.type),)
 
     @impl(arith.MinimumfOp)
     def run_minimumf(
